@@ -177,7 +177,7 @@ impl LangInterpreter for German {
             "million" | "millionen" | "millionste" if b.is_range_free(6, 8) => b.shift(6),
             "milliarde" | "milliarden" | "milliardste" => b.shift(9),
             "billion" | "billionste" => b.shift(12),
-            "und" => Err(Error::Incomplete),
+            "und" if b.is_empty() || !b.is_null() => Err(Error::Incomplete),
 
             _ => Err(Error::NaN),
         };
